@@ -12,24 +12,24 @@ import (
 
 type node = []any
 
-func nInt(n int) node             { return node{"int", n} }
-func nStr(s string) node          { return node{"str", s} }
-func nBool(b bool) node           { return node{"bool", b} }
-func nNil() node                  { return node{"nil"} }
-func nSym(x string) node          { return node{"sym", x} }
-func nQuote(d node) node          { return node{"quote", d} }
-func nArr(es ...node) node        { return node{"arr", seq(es)} }
-func nDef(x string, e node) node  { return node{"def", x, e} }
-func nSet(x string, e node) node  { return node{"set", x, e} }
-func nBegin(body ...node) node    { return node{"begin", seq(body)} }
-func nScope(body ...node) node    { return node{"scope", seq(body)} }
-func nAnd(es ...node) node        { return node{"and", seq(es)} }
-func nOr(es ...node) node         { return node{"or", seq(es)} }
-func nBreak(l string) node        { return node{"break", l} }
-func nContinue(l string) node     { return node{"continue", l} }
-func nAssert(e node) node         { return node{"assert", e} }
-func nEval(e node) node           { return node{"eval", e} }
-func nCall(f node, a ...node) node { return node{"call", f, seq(a)} }
+func nInt(n int) node               { return node{"int", n} }
+func nStr(s string) node            { return node{"str", s} }
+func nBool(b bool) node             { return node{"bool", b} }
+func nNil() node                    { return node{"nil"} }
+func nSym(x string) node            { return node{"sym", x} }
+func nQuote(d node) node            { return node{"quote", d} }
+func nArr(es ...node) node          { return node{"arr", seq(es)} }
+func nDef(x string, e node) node    { return node{"def", x, e} }
+func nSet(x string, e node) node    { return node{"set", x, e} }
+func nBegin(body ...node) node      { return node{"begin", seq(body)} }
+func nScope(body ...node) node      { return node{"scope", seq(body)} }
+func nAnd(es ...node) node          { return node{"and", seq(es)} }
+func nOr(es ...node) node           { return node{"or", seq(es)} }
+func nBreak(l string) node          { return node{"break", l} }
+func nContinue(l string) node       { return node{"continue", l} }
+func nAssert(e node) node           { return node{"assert", e} }
+func nEval(e node) node             { return node{"eval", e} }
+func nCall(f node, a ...node) node  { return node{"call", f, seq(a)} }
 func nApp(f string, a ...node) node { return node{"call", nSym(f), seq(a)} }
 func nTrace(k int, a ...node) node {
 	return nApp("trace", append([]node{nInt(k)}, a...)...)
@@ -308,12 +308,12 @@ func renderSq(t node, l *layout) string {
 	return "(" + strings.Join(parts, " ") + ")"
 }
 
-func nSq(t node) node             { return node{"sq", t} }
-func tqAtom(d node) node          { return node{"atom", d} }
-func tqUnq(e node) node           { return node{"unq", e} }
-func tqSplice(e node) node        { return node{"splice", e} }
-func tqList(ts ...node) node      { return node{"list", seq(ts)} }
-func tqArr(ts ...node) node       { return node{"arr", seq(ts)} }
+func nSq(t node) node        { return node{"sq", t} }
+func tqAtom(d node) node     { return node{"atom", d} }
+func tqUnq(e node) node      { return node{"unq", e} }
+func tqSplice(e node) node   { return node{"splice", e} }
+func tqList(ts ...node) node { return node{"list", seq(ts)} }
+func tqArr(ts ...node) node  { return node{"arr", seq(ts)} }
 
 // renderProgram prints top-level forms, one per line, ending in a newline.
 func renderProgram(forms []node, l *layout) string {
@@ -341,4 +341,90 @@ func size(e any) int {
 		n += size(x)
 	}
 	return n
+}
+
+// ---------------------------------------------------------------- infix rendering
+// The same AST rendered with the infix surface syntax where one exists ({a + b},
+// x := e, x = e, if/else, go-style for, break/continue); everything else is an
+// s-expression operand, which infix blocks accept.
+
+var infixBinary = map[string]bool{"+": true, "-": true, "*": true, "==": true, "!=": true, "<": true, ">": true, "<=": true, ">=": true}
+
+func infixExpr(e node) string {
+	switch e[0] {
+	case "int", "sym":
+		return render(e, nil)
+	case "call":
+		callee := asNode(e[1])
+		args := asSeq(e[2])
+		if callee[0] == "sym" {
+			name := callee[1].(string)
+			if infixBinary[name] && len(args) == 2 {
+				return "{" + infixExpr(asNode(args[0])) + " " + name + " " + infixExpr(asNode(args[1])) + "}"
+			}
+			if name == "not" && len(args) == 1 {
+				return "{not " + infixExpr(asNode(args[0])) + "}"
+			}
+		}
+	case "and", "or":
+		es := asSeq(e[1])
+		if len(es) == 2 {
+			return "{" + infixExpr(asNode(es[0])) + " " + e[0].(string) + " " + infixExpr(asNode(es[1])) + "}"
+		}
+	case "cond":
+		cs := asSeq(e[1])
+		if len(cs) == 1 {
+			c := asSeq(cs[0])
+			return "{if " + infixExpr(asNode(c[0])) + " { " + infixStmt(asNode(c[1])) + " } else { " + infixStmt(asNode(e[2])) + " }}"
+		}
+	}
+	return render(e, nil)
+}
+
+// unbrace drops the grouping braces of an expression that stands alone (a for-header clause)
+func unbrace(t string) string {
+	if len(t) >= 2 && t[0] == '{' && t[len(t)-1] == '}' && !strings.HasPrefix(t, "{if ") {
+		depth := 0
+		for i, ch := range t {
+			if ch == '{' {
+				depth++
+			} else if ch == '}' {
+				depth--
+				if depth == 0 && i != len(t)-1 {
+					return t
+				}
+			}
+		}
+		return t[1 : len(t)-1]
+	}
+	return t
+}
+
+func infixStmt(e node) string {
+	switch e[0] {
+	case "set": // (both `x = e` and `x := e` lower to set; def has no infix form)
+		return e[1].(string) + " = " + infixExpr(asNode(e[2]))
+	case "break", "continue":
+		if e[1].(string) == "" {
+			return e[0].(string)
+		}
+	case "begin":
+		var parts []string
+		for _, x := range asSeq(e[1]) {
+			parts = append(parts, infixStmt(asNode(x)))
+		}
+		if len(parts) > 0 {
+			return "{ " + strings.Join(parts, "; ") + " }"
+		}
+	}
+	return infixExpr(e)
+}
+
+// renderInfixProgram prints every top-level form as one infix block.
+func renderInfixProgram(forms []node) string {
+	var b strings.Builder
+	for _, f := range forms {
+		b.WriteString("{" + infixStmt(f) + "}\n")
+	}
+	return b.String()
 }
